@@ -1,3 +1,10 @@
+// Since Go 1.24 math/rand.Seed is a no-op unless this setting is given: without it the
+// global generator, which the code under test draws from (memberlist's random peer
+// selection, serf's relay choice, the coordinate client), is seeded from the OS and no
+// run would repeat.
+//
+//go:debug randseednop=0
+
 package w
 
 // Worker framework: one OS process runs a batch of seeds for one property.
